@@ -53,6 +53,26 @@ def codecs(r, F):
               "BlobIndex::seal writes %s (checksum over %s) but BlobIndexReader::read reads %s (checksum over %s)" % (puts, ck_w, gets, ck_r), ln=seal.lo)
 
 
+def blob_index_count(r, F):
+    """BlobIndex::write appends at slot `count` and then counts the entry (count += 1): seal() stores that count and the reader decodes exactly `count` entries"""
+    w = F.method(BUF + "::BlobIndex", "write")
+    ups = tables.field_updates(w, "count", BUF + "::BlobIndex")
+    ok = len(ups) == 1
+    if ok:
+        form = affine.affine(w, ups[0]["stmt"].rv.ops[0], depth=1)
+        var = [k for k in form if k != "1"]
+        ok = len(var) == 1 and "count" in var[0] and form[var[0]] == 1 and form.get("1") == 1 and w.must_pass(0, [ups[0]["block"]])
+    r.require(ok, w, "BlobIndex::write counts the entry", "count := count + 1 on every path", "BlobIndex::write does not advance the entry count by one: the sealed index announces fewer entries than it holds "
+              "and recovery never sees the rest", ln=w.lo)
+    bw = w.calls_to(r"buffer::BlobEntryIndex::write$")
+    okr = len(bw) == 1
+    if okr:
+        sl = backslice(w, bw[0].term.args[1], "dep")
+        okr = sl.has_field("count", BUF + "::BlobIndex") and (not ups or w.dominates(bw[0].idx, ups[0]["block"]) or bw[0].idx == ups[0]["block"])
+    r.require(okr, w, "BlobIndex::write places the entry at slot `count`", "the written range depends on the current count and the count moves afterwards",
+              "BlobIndex::write does not place the entry at the slot given by the current count", ln=w.lo)
+
+
 def address_agreement(r, F):
     """every EntryAddress built from a BlobEntryIndex: offset = blob start + index.offset, len/sequence/hash from the same index"""
     sites = []
@@ -225,6 +245,7 @@ def splitter(r, F):
 
 def run(chk, F):
     chk.run_rule("C07.codec", "every on-disk record's writer and reader agree on order, width and range; header length; blob index seal/read", 9, codecs, F)
+    chk.run_rule("C07.blob-index-count", "BlobIndex::write places each entry at slot `count` and advances the count by one", 2, blob_index_count, F)
     chk.run_rule("C07.address-agreement", "flusher and scanner compute entry addresses as blob start + index.offset with len/sequence from the index", 7, address_agreement, F)
     chk.run_rule("C07.alignment", "page alignment asserted before writes; buffer and scanner advance by aligned lengths", 8, alignment, F)
     chk.run_rule("C07.scan-stops-at-stale-blob", "the block scan ends at the first blob whose sequence regresses against the last entry recovered from the block", 2, C01.block_regression, F)
